@@ -203,6 +203,9 @@ pub fn decode_nondecimal(s: &[u8], radix_letter: u8) -> Option<u128> {
     };
     let mut v: u128 = 0;
     for c in &s[2..] {
+        if c.is_ascii_lowercase() {
+            return None;
+        }
         let d = (*c as char).to_digit(radix)?;
         v = v.checked_mul(radix as u128)?.checked_add(d as u128)?;
     }
